@@ -123,7 +123,14 @@ impl SymbolsExportsModule {
         name: &String,
         files: &mut R,
     ) -> Option<Rc<SymbolExport>> {
-        let known = self.named_values.get(name).cloned().or_else(|| {
+        // an explicit export (also a re-export by name) shadows what `export *` brings in
+        let known = self
+            .named_values
+            .get(name)
+            .cloned()
+            .or_else(|| self.named_unknown.get(name).cloned());
+
+        known.or_else(|| {
             for it in &self.extends {
                 let file = files.get_or_fetch_file(it)?;
                 let res = file.symbol_exports.get_value(name, files);
@@ -132,9 +139,7 @@ impl SymbolsExportsModule {
                 }
             }
             None
-        });
-
-        known.or_else(|| self.named_unknown.get(name).cloned())
+        })
     }
 
     pub fn insert_type(&mut self, name: String, export: Rc<SymbolExport>) {
@@ -158,7 +163,14 @@ impl SymbolsExportsModule {
         name: &String,
         files: &mut R,
     ) -> Option<Rc<SymbolExport>> {
-        let known = self.named_types.get(name).cloned().or_else(|| {
+        // an explicit export (also a re-export by name) shadows what `export *` brings in
+        let known = self
+            .named_types
+            .get(name)
+            .cloned()
+            .or_else(|| self.named_unknown.get(name).cloned());
+
+        known.or_else(|| {
             for it in &self.extends {
                 let file = files.get_or_fetch_file(it)?;
                 let res = file.symbol_exports.get_type(name, files);
@@ -167,9 +179,7 @@ impl SymbolsExportsModule {
                 }
             }
             None
-        });
-
-        known.or_else(|| self.named_unknown.get(name).cloned())
+        })
     }
 
     pub fn extend(&mut self, other: BffFileName) {
